@@ -14,6 +14,7 @@ import (
 	"verif/internal/c09"
 	"verif/internal/c11"
 	"verif/internal/c13"
+	"verif/internal/c14"
 	"verif/internal/c15"
 	"verif/internal/c19"
 )
@@ -29,6 +30,7 @@ func init() {
 	monitors["C09"] = c09.Run
 	monitors["C11"] = c11.Run
 	monitors["C13"] = c13.Run
+	monitors["C14"] = c14.Run
 	monitors["C15"] = c15.Run
 	monitors["C19"] = c19.Run
 }
@@ -37,6 +39,10 @@ func init() {
 func workerMain(args []string) {
 	if len(args) > 0 && args[0] == "c13" {
 		c13.Worker(args[1:])
+		return
+	}
+	if len(args) > 0 && args[0] == "c14" {
+		c14.Worker(args[1:])
 		return
 	}
 	if len(args) > 0 && args[0] == "c15" {
